@@ -8,7 +8,7 @@ fn any_choice() -> Choice {
     Choice(b as u64)
 }
 
-// @harness props=C18 kind=full tier=quick
+// @harness props=C18 kind=full tier=quick pairs=implCtZeroforu64/ct_zero,implCtZeroforu64/ct_nonzero
 #[kani::proof]
 fn ct_u64_zero_nonzero() {
     let x: u64 = kani::any();
@@ -21,7 +21,7 @@ fn ct_u64_zero_nonzero() {
     kani::cover!(true);
 }
 
-// @harness props=C18 kind=full tier=quick
+// @harness props=C18 kind=full tier=quick pairs=implCtEqualforu64/ct_eq,implCtEqualforu64/ct_ne
 #[kani::proof]
 fn ct_u64_eq_ne() {
     let a: u64 = kani::any();
@@ -32,7 +32,7 @@ fn ct_u64_eq_ne() {
     kani::cover!(true);
 }
 
-// @harness props=C18 kind=full tier=quick
+// @harness props=C18 kind=full tier=quick pairs=implCtLesserforu64/ct_lt,implCtGreaterforu64/ct_gt
 #[kani::proof]
 fn ct_u64_lt_gt() {
     let a: u64 = kani::any();
@@ -61,7 +61,7 @@ fn ct_u64_ge() {
     kani::cover!(true);
 }
 
-// @harness props=C18 kind=full tier=quick
+// @harness props=C18 kind=full tier=quick pairs=foru8/ct_
 #[kani::proof]
 fn ct_u8_all() {
     let a: u8 = kani::any();
@@ -73,7 +73,7 @@ fn ct_u8_all() {
     kani::cover!(true);
 }
 
-// @harness props=C18 kind=full tier=quick
+// @harness props=C18 kind=full tier=quick pairs=implChoice/,forChoice/,CtOption<T>/
 #[kani::proof]
 fn ct_choice_algebra() {
     let a = any_choice();
@@ -181,7 +181,7 @@ fn ct_array32_set_n10() {
 
 // byte arrays as big-endian numbers: complete for N = 8 (value comparison through u64), witness source for the
 // generic-N Verus proof
-// @harness props=C18 kind=bounded bound=N=8 tier=quick unwind=10
+// @harness props=C18 kind=bounded bound=N=8 tier=quick unwind=10 pairs=CtLesserfor&[u8;N]/ct_lt
 #[kani::proof]
 #[kani::unwind(10)]
 fn ct_bytes_lt_n8() {
@@ -204,7 +204,7 @@ fn ct_bytes_ge_n8() {
     kani::cover!(true);
 }
 
-// @harness props=C18 kind=bounded bound=N=8 tier=quick unwind=10
+// @harness props=C18 kind=bounded bound=N=8 tier=quick unwind=10 pairs=for&[u8;N]/ct_eq,for&[u8;N]/ct_ne,for&[u8;N]/ct_zero,for&[u8;N]/ct_nonzero,for&[u8]/ct_eq
 #[kani::proof]
 #[kani::unwind(10)]
 fn ct_bytes_eq_zero_n8() {
